@@ -204,19 +204,17 @@ Definition dec_exp (xn xd : Z) : Z :=
   let est := (l * 30103) / 100000 in
   adj_down 4 xn xd (adj_up 4 xn xd est).
 
-(* compare c*10^p with M*2^E *)
-Definition cmp_val (c p M E : Z) : comparison :=
-  (c * 10 ^ (Z.max p 0) * 2 ^ (Z.max (- E) 0)) ?= (M * 2 ^ (Z.max E 0) * 10 ^ (Z.max (- p) 0)).
-
-(* rounding interval of the double m*2^e (expf = exponent field), in units of 2^(e-2); fast pre-filter only:
-   acceptance is always decided by parsing back *)
-Definition in_interval (m e expf c p : Z) : bool :=
-  let lowM := if (m =? two52) && (1 <? expf) then 4 * m - 1 else 4 * m - 2 in
-  let highM := 4 * m + 2 in
-  let incl := Z.even m in
-  let okl := match cmp_val c p lowM (e - 2) with Gt => true | Eq => incl | Lt => false end in
-  let okh := match cmp_val c p highM (e - 2) with Lt => true | Eq => incl | Gt => false end in
-  okl && okh.
+(* rounding interval of the double x = m*2^e (expf = exponent field): [x*lowM/(4m), x*highM/(4m)], closed iff m is
+   even.  With y = yn/yd = x*10^(17-n0), a candidate c*P (P = 10^(17-k)) lies in it iff
+   LO <= c*P*A <= HI for A = 4*m*yd, LO = yn*lowM, HI = yn*highM.  Fast pre-filter only: acceptance is always
+   decided by parsing back ([roundtrips]). *)
+Definition in_interval (incl : bool) (A LO HI cP : Z) : bool :=
+  let t := cP * A in
+  match t ?= LO with
+  | Lt => false
+  | Eq => incl
+  | Gt => match t ?= HI with Lt => true | Eq => incl | Gt => false end
+  end.
 
 Definition roundtrips (babs c p : Z) : bool :=
   match round_rat (dec_num c p) (dec_den p) with
@@ -227,7 +225,7 @@ Definition roundtrips (babs c p : Z) : bool :=
 (* search k = 1 .. 17; L = floor(x * 10^(17-n0)), R/yd the fraction left.  Candidates at k digits are
    lo = floor(x*10^(k-n0)) and lo+1; among those that parse back to the same double take the closest
    (ties: even), as ES6 7.1.12.1 step 5 / strconv's shortest formatting. *)
-Fixpoint search (ks : list Z) (babs m e expf n0 L R yd : Z) : option (Z * Z) :=
+Fixpoint search (ks : list Z) (babs : Z) (incl : bool) (A LO HI n0 L R yd : Z) : option (Z * Z) :=
   match ks with
   | [] => None
   | k :: ks' =>
@@ -236,18 +234,19 @@ Fixpoint search (ks : list Z) (babs m e expf n0 L R yd : Z) : option (Z * Z) :=
     let r := L mod P in
     let exact := (r =? 0) && (R =? 0) in
     let p := n0 - k in
-    let ok c := in_interval m e expf c p && roundtrips babs c p in
-    let ok_lo := ok lo in
-    let ok_hi := if exact then false else ok (lo + 1) in
-    if ok_lo && ok_hi then
-      match 2 * (r * yd + R) ?= P * yd with
-      | Lt => Some (lo, k)
-      | Gt => Some (lo + 1, k)
-      | Eq => Some (if Z.even lo then lo else lo + 1, k)
-      end
-    else if ok_lo then Some (lo, k)
+    let ok_lo := if in_interval incl A LO HI (lo * P) then roundtrips babs lo p else false in
+    let ok_hi := if exact then false
+                 else if in_interval incl A LO HI ((lo + 1) * P) then roundtrips babs (lo + 1) p else false in
+    if ok_lo then
+      if ok_hi then
+        match 2 * (r * yd + R) ?= P * yd with
+        | Lt => Some (lo, k)
+        | Gt => Some (lo + 1, k)
+        | Eq => Some (if Z.even lo then lo else lo + 1, k)
+        end
+      else Some (lo, k)
     else if ok_hi then Some (lo + 1, k)
-    else search ks' babs m e expf n0 L R yd
+    else search ks' babs incl A LO HI n0 L R yd
   end.
 
 Definition ks17 : list Z := [1; 2; 3; 4; 5; 6; 7; 8; 9; 10; 11; 12; 13; 14; 15; 16; 17].
@@ -268,7 +267,8 @@ Fixpoint z_digits (fuel : nat) (z : Z) (acc : bytes) : bytes :=
 
 Definition dec_string (z : Z) : bytes := z_digits 25 z [].
 
-(* (digits, n): value = 0.digits * 10^n, digits without trailing zeros *)
+(* (digits, n): value = 0.digits * 10^n, digits without trailing zeros.  The stripped digit string is checked
+   once more to parse back to the same double (None otherwise; never observed). *)
 Definition shortest (babs m e expf : Z) : option (bytes * Z) :=
   let xn := if 0 <=? e then m * 2 ^ e else m in
   let xd := if 0 <=? e then 1 else 2 ^ (- e) in
@@ -276,11 +276,15 @@ Definition shortest (babs m e expf : Z) : option (bytes * Z) :=
   let sc := 17 - n0 in
   let yn := if 0 <=? sc then xn * 10 ^ sc else xn in
   let yd := if 0 <=? sc then xd else xd * 10 ^ (- sc) in
-  match search ks17 babs m e expf n0 (yn / yd) (yn mod yd) yd with
+  let lowM := if (m =? two52) && (1 <? expf) then 4 * m - 1 else 4 * m - 2 in
+  let highM := 4 * m + 2 in
+  match search ks17 babs (Z.even m) (4 * m * yd) (yn * lowM) (yn * highM) n0 (yn / yd) (yn mod yd) yd with
   | None => None
   | Some (c, k) =>
     let n := n0 + (Z.of_nat (length (dec_string c)) - k) in      (* carry: c = 10^k *)
-    Some (dec_string (strip_zeros 20 c), n)
+    let c' := strip_zeros 20 c in
+    let digs := dec_string c' in
+    if roundtrips babs c' (n - Z.of_nat (length digs)) then Some (digs, n) else None
   end.
 
 (* ---------- ES6 layout ---------- *)
